@@ -244,12 +244,19 @@ pub struct Env {
     pub cpus: Option<usize>,
     /// file name of the configuration in the repository root (default Monorail.json)
     pub config_name: String,
+    /// run monorail (and git) from this directory instead of the repository root
+    pub cwd_override: Option<PathBuf>,
 }
 
 impl Env {
     pub fn new(worker: usize) -> Env {
+        Env::new_in(scratch::root(), worker)
+    }
+
+    /// Like `new`, with the case directory below another scratch root.
+    pub fn new_in(base: &Path, worker: usize) -> Env {
         let k = CASE_COUNTER.fetch_add(1, Ordering::SeqCst);
-        let case_dir = scratch::root().join(format!("w{}", worker)).join(format!("case{}", k));
+        let case_dir = base.join(format!("w{}", worker)).join(format!("case{}", k));
         let _ = std::fs::remove_dir_all(&case_dir);
         let repo = case_dir.join("repo");
         let trace = case_dir.join("trace");
@@ -271,6 +278,7 @@ impl Env {
             nofile: None,
             cpus: None,
             config_name: "Monorail.json".to_string(),
+            cwd_override: None,
         }
     }
 
@@ -401,7 +409,7 @@ impl Env {
 
     fn base_command(&self, bin: &Path) -> Command {
         let mut c = Command::new(bin);
-        c.current_dir(&self.repo)
+        c.current_dir(self.cwd_override.as_ref().unwrap_or(&self.repo))
             .env_clear()
             .env("PATH", std::env::var("PATH").unwrap_or_else(|_| "/usr/bin:/bin".into()))
             .env("HOME", &self.case_dir)
